@@ -295,14 +295,15 @@ bloom_filter_alloc<A> bloom_filter_alloc<A>::deserialize(std::istream& is, const
 
   // if empty, stop reading
   if (is_empty) {
-    return bloom_filter_alloc<A>(num_longs << 6, num_hashes, seed, allocator);
+    return bloom_filter_alloc<A>(static_cast<uint64_t>(num_longs) << 6, num_hashes, seed, allocator);
   }
 
   const uint64_t num_bits_set = read<uint64_t>(is);
   const bool is_dirty = (num_bits_set == DIRTY_BITS_VALUE);
 
   // allocate memory
-  const uint64_t num_bytes = num_longs << 3;
+  check_num_longs(num_longs);
+  const uint64_t num_bytes = static_cast<uint64_t>(num_longs) << 3;
   AllocUint8 alloc(allocator);
   uint8_t* bit_array = alloc.allocate(num_bytes);
   if (bit_array == nullptr) {
@@ -311,7 +312,7 @@ bloom_filter_alloc<A> bloom_filter_alloc<A>::deserialize(std::istream& is, const
   read(is, bit_array, num_bytes);
 
   // pass to constructor
-  return bloom_filter_alloc<A>(seed, num_hashes, is_dirty, true, false, num_longs << 6, num_bits_set, bit_array, nullptr, allocator);
+  return bloom_filter_alloc<A>(seed, num_hashes, is_dirty, true, false, static_cast<uint64_t>(num_longs) << 6, num_bits_set, bit_array, nullptr, allocator);
 }
 
 template<typename A>
@@ -371,7 +372,7 @@ bloom_filter_alloc<A> bloom_filter_alloc<A>::internal_deserialize_or_wrap(void* 
   if (wrap && is_empty && !read_only) {
     throw std::invalid_argument("Cannot wrap an empty filter for writing");
   } else if (is_empty) {
-    return bloom_filter_alloc<A>(num_longs << 6, num_hashes, seed, allocator);
+    return bloom_filter_alloc<A>(static_cast<uint64_t>(num_longs) << 6, num_hashes, seed, allocator);
   }
 
   // a non-empty image has the number of bits set in a 4th preamble long, whatever prelongs says
@@ -382,7 +383,8 @@ bloom_filter_alloc<A> bloom_filter_alloc<A>::internal_deserialize_or_wrap(void* 
 
   uint8_t* bit_array;
   uint8_t* memory;
-  const uint64_t num_bytes = num_longs << 3;
+  check_num_longs(num_longs);
+  const uint64_t num_bytes = static_cast<uint64_t>(num_longs) << 3;
   ensure_minimum_memory(end_ptr - ptr, num_bytes);
   if (wrap) {
     memory = static_cast<uint8_t*>(bytes);
@@ -399,7 +401,15 @@ bloom_filter_alloc<A> bloom_filter_alloc<A>::internal_deserialize_or_wrap(void* 
   }
 
   // pass to constructor -- !wrap == is_owned_
-  return bloom_filter_alloc<A>(seed, num_hashes, is_dirty, !wrap, read_only, num_longs << 6, num_bits_set, bit_array, memory, allocator);
+  return bloom_filter_alloc<A>(seed, num_hashes, is_dirty, !wrap, read_only, static_cast<uint64_t>(num_longs) << 6, num_bits_set, bit_array, memory, allocator);
+}
+
+template<typename A>
+void bloom_filter_alloc<A>::check_num_longs(uint32_t num_longs) {
+  // length of the bit array of a non-empty filter, in 64-bit longs
+  if (num_longs == 0 || num_longs > ((MAX_FILTER_SIZE_BITS + 63) >> 6)) {
+    throw std::invalid_argument("Possible corruption: Invalid bit array length: " + std::to_string(num_longs));
+  }
 }
 
 template<typename A>
